@@ -139,8 +139,8 @@ impl Property for C04 {
             // the cross product 8 behaviours x 6 sizes x 3 prior states = 144 cells;
             // thorough walks every cell several times with different schedules and
             // kill points, quick samples each cell at least once
-            Tier::Quick => 288,
-            Tier::Thorough => 144 * 30,
+            Tier::Quick => 1440,
+            Tier::Thorough => 14400,
         }
     }
     fn rule(&self) -> &'static str {
